@@ -847,6 +847,34 @@ def eval_kill(ctx, c, out):
     return terms
 
 
+def props_with_retry(ctx):
+    """ctx.coq_props(), retried when a concurrent check of the same property rebuilt Props.vo between lib's
+    removal of the file and its make (then make prints 'is up to date' and no Print Assumptions output exists)"""
+    import time
+    for attempt in range(5):
+        nb, ob, di, th = len(ctx.brokens), ctx.cov["obligations"], ctx.cov["discharged"], list(ctx.cov["theorems"])
+        if ctx.coq_props():
+            return True
+        if any("is up to date" in (b["what"] or "") for b in ctx.brokens[nb:]):
+            del ctx.brokens[nb:]
+            ctx.cov["obligations"], ctx.cov["discharged"], ctx.cov["theorems"] = ob, di, th
+            time.sleep(1 + 2 * attempt)
+            continue
+        return False
+    return ctx.coq_props()
+
+
+def cleanup_gen(tagpid):
+    import glob
+    import os
+    from lib import GEN
+    for f in glob.glob(os.path.join(GEN, "*C20_*%s*" % tagpid)) + glob.glob(os.path.join(GEN, ".*C20_*%s*" % tagpid)):
+        try:
+            os.remove(f)
+        except OSError:
+            pass
+
+
 def run(ctx):
     ctx.assumptions += [
         "rename(2) is atomic and a failed open/rename has no effect (POSIX); this is the semantics of the model's Rename/Create steps",
@@ -870,7 +898,7 @@ def run(ctx):
     import time
     tm = {}
     t0 = time.time()
-    ctx.coq_props()
+    props_with_retry(ctx)
     tm["coq_props"] = round(time.time() - t0, 1)
     scripted = gen_scripted(ctx)
     kills = gen_kill(ctx)
@@ -921,19 +949,23 @@ def run(ctx):
     if not any(k.startswith("kill/") and k.endswith("/in-temp") for k in hist):
         ctx.broken("generator-selftest", "no kill landed inside a store (no temporary was ever left behind)")
     t1 = time.time()
-    mm = ctx.coq_mismatches("script", HEADER, terms, "chk", shard=5, need_vo=["C20/Run.vo"])
+    import os
+    tagpid = "p%d" % os.getpid()        # concurrent checks of this property must not share case files
+    mm = ctx.coq_mismatches("script" + tagpid, HEADER, terms, "chk", shard=5, need_vo=["C20/Run.vo"])
     tm["coq_script"] = round(time.time() - t1, 1)
     if mm:
         ctx.cov["mismatches"] += len(mm)
         c, o = term_cases[mm[0]]
-        shown = ctx.coq_show("mm", HEADER, "show (%s)" % terms[mm[0]])
+        shown = ctx.coq_show("mm" + tagpid, HEADER, "show (%s)" % terms[mm[0]])
         ctx.broken("correspondence", "model C20.Run and the implementation disagree on %d scripted case(s); first: %s; model says: %s"
                    % (len(mm), c.name, shown[-900:]),
                    {"scripted": [ser_case(c)], "observed": {"res": o["res"], "trace": o["trace"][:60]}})
     if kterms:
-        mk = ctx.coq_mismatches("kill", HEADER, kterms, "chk_kill", shard=40)
+        mk = ctx.coq_mismatches("kill" + tagpid, HEADER, kterms, "chk_kill", shard=40)
         if mk:
             ctx.cov["mismatches"] += len(mk)
             ctx.broken("correspondence", "the directory left by %d SIGKILL trial(s) is not one the model reaches at any crash point; first term: %s"
                        % (len(mk), kterms[mk[0]][:600]))
     ctx.cov["kill_trials"] = sum(v for k, v in hist.items() if k.startswith("kill/"))
+    if os.environ.get("VERIF_KEEP") != "1":
+        cleanup_gen(tagpid)
